@@ -66,6 +66,12 @@ func (c *cluster) pollTasks() {
 				}
 				idx, committed := l.idIndex[pt.id]
 				if !committed {
+					if n := c.nodes[pt.nid]; n == nil || n.status != nodeUp || n.inc != pt.inc {
+						// the incarnation died in this very step: its final log state was
+						// never observed, the claim cannot be checked
+						c.stats.class("upd-ok-unverifiable")
+						continue
+					}
 					c.fail("commit-stable", "success-not-committed", "update %d reported success by node %d but no node's commit index covers it", pt.id, pt.nid)
 					continue
 				}
